@@ -81,6 +81,7 @@ def build_extractor_config(flavour, cfg, files, units, bare=()):
     fl = FLAVOURS[flavour]
     eff_path = dict(cfg['effects_path'])
     eff_method = dict(cfg['effects_method'])
+    derived = set()
     active = [u for u in units if (u['flavours'] is None or flavour in u['flavours'])
               and (not files.get(u['file'], {}).get('flavours') or flavour in files[u['file']]['flavours'])]
     for u in active:
@@ -96,6 +97,8 @@ def build_extractor_config(flavour, cfg, files, units, bare=()):
         for k in km:
             # an explicitly configured method effect (contracts/config.json) wins; associated
             # functions without a receiver are called by path and never hit this table
+            if k not in eff_method:
+                derived.add(k)
             eff_method.setdefault(k, u['world'])
     eff_path = {k: v for k, v in eff_path.items() if v != 'AMBIGUOUS'}
     fcfg = {}
@@ -119,7 +122,7 @@ def build_extractor_config(flavour, cfg, files, units, bare=()):
         'src': os.path.join(REPO, 'src'),
         'features': fl['features'], 'cfg_flags': fl['cfg_flags'],
         'roots': cfg['roots'], 'macro_map': cfg['macro_map'],
-        'effects_path': eff_path, 'effects_method': eff_method,
+        'effects_path': eff_path, 'effects_method': eff_method, 'effects_method_derived': sorted(derived),
         'iter_renames': cfg['iter_renames'], 'asref_map': cfg['asref_map'],
         'opaque_fmt_in': cfg['opaque_fmt_in'], 'world_ty': 'crate::shims::World',
         'files': fcfg,
